@@ -324,7 +324,7 @@ def run(tier, V):
     cov['distinct_nontrivial'] = tot.get('ncomp', 0) // 2 + extra.get('ncomp', 0) // 2
     cov['rule'] = ('EVERY string of length 1..%d over the 16 symbols %r (and a seed-chosen 1/32 slice of the strings up to length %d in quick), each compiled by rset_make and rstr_make (icase on/off) and '
                    'matched against 7 lines x 2 flag sets with range/char-boundary assertions in the probe, under ASan+UBSan with a %d-step budget; + %d random byte strings (1..255, len<=64) '
-                   '+ a directed pool of %d malformed constructs, also typed into the real binary as :s, :g, / and ?, as an ex address with and without its closing delimiter, as unfinished :g and :s, inside the command list of a global and at the vi : prompt.  non-trivial = the pattern compiled (so it was also matched).' % (
+                   '+ a directed pool of %d malformed constructs (incl. quantified multi-byte characters and nesting products that wrap the instruction count), also typed into the real binary as :s, :g, / and ?, as an ex address with and without its closing delimiter, as unfinished :g and :s, inside the command list of a global and at the vi : prompt.  non-trivial = the pattern compiled (so it was also matched).' % (
                        maxlen, ALPHA16, maxlen + 1, BUDGET, nones, len(pool)))
     cov['samples'] = [p.decode('latin-1') for p in pool[30:36]] + [pats[0].decode('latin-1'), pats[1].decode('latin-1')]
     assumptions = ['ASan red zones catch overflows of the program/jmpend/mark arrays only when they leave the object; UBSan catches signed overflow and out-of-bounds indexing of fixed arrays',
